@@ -30,7 +30,7 @@ def nf(s):
     return unicodedata.normalize("NFKD", s)
 
 
-def cases(rng, tier):
+def _cases_core(rng, tier):
     n = 25 if tier == "quick" else 1500
     pairs = [(MN[0], "TREZOR"), (MN[1], "TREZOR"), (MN[0], ""), (MN[2], "㍍ガバヴァぱばぐゞちぢ十人十色")]
     for _ in range(n):
@@ -146,3 +146,9 @@ def oracle(line, out):
 
 
 known_match = common.no_known
+
+
+def cases(rng, tier):
+    from . import extra
+    yield from _cases_core(rng, tier)
+    yield from extra.cases_for('walleteq', rng, tier)
